@@ -27,7 +27,9 @@ def describe(tier):
                  b['html_plain'], b['html_attrs'], len(ATTRS), b['css_nodes'], [d[:2] for d in CD.DECLS_TOKENS], b['rotations']),
         nontrivial='the helper is expected to return something at that position.',
         bounds=b,
-        assumptions=['get_open_tag inside a closing tag, next/previous inside a tag or an item head, and inclusive boundaries of '
+        assumptions=['the checked calls at every fourth position are preceded by calls on %d ill-formed HTML / %d ill-formed CSS '
+                     'sources: history must not matter' % (len(POISON_HTML), len(POISON_CSS)),
+                     'get_open_tag inside a closing tag, next/previous inside a tag or an item head, and inclusive boundaries of '
                      'get_css_section are left unspecified'],
         explanation='Every (document, position) is given to the real helpers and compared with the generator ground truth.',
     )
@@ -119,7 +121,32 @@ def model_tuple(m):
     return (m.start, m.end, [tuple(r) for r in m.ranges]) if m is not None else None
 
 
+# calls on ill-formed sources made before the checked calls at every fourth position: nothing of them may survive
+POISON_HTML = [('<div class="a b', 7), ('<p><!-- x', 5), ('<a><script>if (a<b) <i>', 14), ("<e class='x y' f=", 4)]
+POISON_CSS = [('.hero { width: calc(100% - ', 20), ('a { color: 0, 0, 0, .5); }', 6), ('a { b: "x', 8), ('a { /* x', 7), ('a { b: url(c;d', 9)]
+
+
+def poison_html():
+    for text, p in POISON_HTML:
+        for f in (lambda: get_open_tag(text, p), lambda: select_item_html(text, p), lambda: select_item_html(text, p, True)):
+            try:
+                f()
+            except Exception:
+                pass
+
+
+def poison_css():
+    for text, p in POISON_CSS:
+        for f in (lambda: get_css_section(text, p, True), lambda: select_item_css(text, p), lambda: select_item_css(text, p, True)):
+            try:
+                f()
+            except Exception:
+                pass
+
+
 def check_html_pos(text, elements, p):
+    if p % 4 == 0:
+        poison_html()
     bad = []
     inside = [e for e in elements if e['open'][0] < p < e['open'][1]]
     in_close = any(e['close'] and e['close'][0] < p < e['close'][1] for e in elements)
@@ -171,6 +198,8 @@ def sel_model(n):
 
 
 def check_css_pos(text, nodes, p):
+    if p % 4 == 0:
+        poison_css()
     bad = []
     rules = [n for n in nodes if n['kind'] == 'rule']
     has_stmt = any(n['kind'] == 'stmt' for n in nodes)
